@@ -19,8 +19,20 @@ Record case := {
   c_entries_relaxed : option (list obs_entry);
   c_lone_cr : bool;                              (* the file is in the known class where yaml.v3 coordinates leave the file:
                                                     C02-lone-cr (CR without LF, NEL, LS, PS) *)
-  c_expand : list (Z * Z * option (list Z))      (* (First, Last, what the real diags.LineRange.Expand returned; None = panic) *)
+  c_expand : list (Z * Z * option (list Z));     (* (First, Last, what the real diags.LineRange.Expand returned; None = panic) *)
+  c_inject : list (Z * list (list Z) * option (list Z))
+                                                 (* (len(Split(content)), position lines of every diagnostic of a problem, the source
+                                                    line numbers the real diags.InjectDiagnostics printed; None = it panicked) *)
 }.
+
+(** Model.Render.inject_lines vs the real InjectDiagnostics on the diagnostics of this file's problems *)
+Definition inject_ok_b (x : Z * list (list Z) * option (list Z)) : bool :=
+  let '(n, ds, obs) := x in
+  match inject_lines n ds, obs with
+  | Ok l, Some l' => list_eqb Z.eqb l l'
+  | Crash _, None => true
+  | _, _ => false
+  end.
 
 (** Model.Render.expand vs the real LineRange.Expand (line ranges of the problems of this file + adversarial ones) *)
 Definition expand_ok_b (x : Z * Z * option (list Z)) : bool :=
@@ -70,6 +82,7 @@ Definition check (c : case) : list string :=
   let b := c_base c in
   (if (c_lone_cr c || hyp_fits c)%bool then [] else ["hypothesis-fits"]) ++
   (if forallb expand_ok_b (c_expand c) then [] else ["expand"]) ++
+  (if forallb inject_ok_b (c_inject c) then [] else ["inject-lines"]) ++
   C19.check b ++
   (match c_entries_strict c with
    | Some obs => match entries_diff (run_strict (c_thanos b) (c_lines b) (c_docs b) (c_yerr b)) obs with
